@@ -8,7 +8,7 @@ use core::pin::Pin;
 use core::task::{Context, Poll, RawWaker, RawWakerVTable, Waker};
 
 use crate::nd;
-use crate::{vassert, vcover};
+use crate::{vassert, vcover, vlog};
 
 #[cfg(feature = "n2")]
 pub const N: usize = 2;
@@ -302,6 +302,7 @@ pub fn on_start(v: usize) {
     s.starts[v] += 1;
     let t = s.tick();
     s.start[v] = t;
+    vlog!("t{}: start {}", t, v);
     s.order[s.order_len] = v as u8;
     s.order_len += 1;
     let c = s.in_flight_count();
@@ -317,6 +318,7 @@ pub fn on_end(v: usize) {
     let s = st();
     let t = s.tick();
     s.end[v] = t;
+    vlog!("t{}: end {}", t, v);
 }
 
 impl Future for UserFut {
